@@ -291,6 +291,10 @@ func paramSpec(loc, style string, explode bool, shape string) string {
 		schema = `{"type":"object","additionalProperties":{"type":"array","items":{"type":"string"}}}`
 	case "mapofobj":
 		schema = `{"type":"object","additionalProperties":{"type":"object","properties":{"a":{"type":"string"}}}}`
+	case "objmapprop":
+		schema = `{"type":"object","properties":{"a":{"type":"string"},"labels":{"type":"object","additionalProperties":{"type":"string"}}}}`
+	case "recobj":
+		schema = `{"$ref":"#/components/schemas/RecNode"}`
 	case "objmap":
 		schema = `{"type":"object","properties":{"a":{"type":"string"}},"additionalProperties":{"type":"array","items":{"type":"string"}}}`
 	}
@@ -300,7 +304,7 @@ func paramSpec(loc, style string, explode bool, shape string) string {
 		path = "/x/{p}"
 		req = "true"
 	}
-	return fmt.Sprintf(`{"openapi":"3.0.3","info":{"title":"t","version":"1"},"paths":{%q:{"get":{"operationId":"op","parameters":[{"name":"p","in":%q,"required":%s,"style":%q,"explode":%v,"schema":%s}],"responses":{"200":{"description":"ok"}}}}}}`,
+	return fmt.Sprintf(`{"openapi":"3.0.3","info":{"title":"t","version":"1"},"paths":{%q:{"get":{"operationId":"op","parameters":[{"name":"p","in":%q,"required":%s,"style":%q,"explode":%v,"schema":%s}],"responses":{"200":{"description":"ok"}}}}},"components":{"schemas":{"RecNode":{"type":"object","properties":{"v":{"type":"string"},"next":{"$ref":"#/components/schemas/RecNode"}}}}}}`,
 		path, loc, req, style, explode, schema)
 }
 
